@@ -207,6 +207,34 @@ fn check_batch(rep: &Report, batch: &Batch, threads: usize, k: usize, l: &mut Lo
             batch.sources[j].len(),
         );
     };
+    // (0) first-ever evaluation of freshly built trees happens concurrently: the reference results
+    // above were computed on *other* instances, so nothing was warmed up by the oracle
+    for round in 0..3 {
+        let fresh: Vec<Tree> = batch
+            .sources
+            .iter()
+            .map(|s| evalexpr::build_operator_tree::<DefaultNumericTypes>(s).expect("source built before"))
+            .collect();
+        let fresh_ctx: HCtx = build_hashmap_nolog(&batch.ctx);
+        let barrier0 = Barrier::new(threads);
+        std::thread::scope(|s| {
+            for i in 0..threads {
+                let (fresh, fresh_ctx, seq, barrier0, evals, fail_once) = (&fresh, &fresh_ctx, &seq, &barrier0, &evals, &fail_once);
+                s.spawn(move || {
+                    barrier0.wait();
+                    for jj in 0..n {
+                        // all threads walk the trees in the same order, so first evaluations collide
+                        let j = if round % 2 == 0 { jj } else { (jj + i) % n };
+                        let r = fresh[j].eval_with_context(fresh_ctx).map(|v| to_rv(&v));
+                        evals.fetch_add(1, Ordering::Relaxed);
+                        if !res_same(&r, &seq[j]) {
+                            fail_once("first concurrent evaluation of a fresh tree differs from the sequential result", j, &seq[j], &r, threads);
+                        }
+                    }
+                });
+            }
+        });
+    }
     // (1) scoped threads sharing &Node and &HashMapContext (Sync)
     std::thread::scope(|s| {
         for i in 0..threads {
@@ -296,6 +324,29 @@ fn check_batch(rep: &Report, batch: &Batch, threads: usize, k: usize, l: &mut Lo
     }
 }
 
+/// One program per builtin (49 distinct function identifiers resolved through the builtin
+/// fallback of one shared context), evaluated concurrently.
+fn builtin_batch() -> Batch {
+    let mut sources = Vec::new();
+    for name in refmodel::builtins::BUILTINS {
+        let arg = match name {
+            "math::log" | "math::pow" | "math::atan2" | "math::hypot" | "bitand" | "bitor" | "bitxor" | "shl" | "shr" | "min" | "max" => "(3, 2)",
+            "if" => "(true, 1, 2)",
+            "contains" => "((1, 2), 2)",
+            "contains_any" => "((1, 2), (2, 5))",
+            "len" | "str::to_lowercase" | "str::to_uppercase" | "str::trim" => "(\"Ab c\")",
+            "str::substring" => "(\"abc\", 1)",
+            "bitnot" | "math::abs" => "(a0)",
+            _ => "(2)",
+        };
+        sources.push(format!("{}{}", name, arg));
+    }
+    let mut ctx = Ctx::hashmap();
+    ctx.vars.insert("a0".into(), RV::Int(-5));
+    let trees = sources.iter().map(|s| evalexpr::build_operator_tree::<DefaultNumericTypes>(s).expect("builtin call builds")).collect();
+    Batch { ctx, sources, trees }
+}
+
 fn run(rep: &Report) {
     rep.set_rule(
         "compile-time half: this check's own code shares &Node, &Value, &EvalexprError, &Function, &Operator, \
@@ -304,7 +355,8 @@ fn run(rep: &Report) {
          Dynamic half: batches of generated read-only programs (no assignment; variables, user functions, builtins, \
          all value types) with one shared context, evaluated K times from T in {2,4,8,16} threads released by a \
          barrier with staggered offsets (scoped borrows and Arc), results / cloned trees / operators moved back \
-         through a channel; plus a rendezvous phase in which a harness-owned user function holds 16 / 48 / 64 threads \
+         through a channel; the first evaluation of freshly built trees happens concurrently (the oracle's results come \
+         from other instances); one batch calls all 49 builtins through one shared context; plus a rendezvous phase in which a harness-owned user function holds 16 / 48 / 64 threads \
          inside a function call at the same instant (the one point where the harness owns the schedule); oracle: the \
          sequential result computed beforehand, bit-exact. Non-trivial: distinct \
          (program, context) that reads a shared variable or calls a shared function, run on >= 4 threads.",
@@ -338,6 +390,14 @@ fn run(rep: &Report) {
             check_rendezvous(rep, &batch.ctx, threads, rep.tier.pick(2, 10), &mut l);
         }
     }
+    // every builtin name through one shared context
+    let bb = builtin_batch();
+    for threads in [4usize, 16] {
+        for _ in 0..rep.tier.pick(3, 30) {
+            check_batch(rep, &bb, threads, k, &mut l);
+        }
+    }
+    l.label("all-builtins batch");
     rep.merge(l);
 }
 
